@@ -115,7 +115,7 @@ def raw_values(kind, k, seed, scale=None):
     raise ValueError(kind)
 
 
-def materialize(kind, cells, nan_cell, seed, target="binary", feature="f", classes=None, scale=None, values=None, xdtype=None):
+def materialize(kind, cells, nan_cell, seed, target="binary", feature="f", classes=None, scale=None, values=None, xdtype=None, companion=None):
     vals = list(values) if values is not None else raw_values(kind, len(cells), seed, scale)
     xs, ys = [], []
     for v, c in zip(vals, cells):
@@ -133,6 +133,8 @@ def materialize(kind, cells, nan_cell, seed, target="binary", feature="f", class
     else:
         col = pd.Series(xs, dtype=object)
     X = pd.DataFrame({feature: col})
+    if companion == "id":  # an id-like qualitative column (each value once): dropped by every discretizer
+        X["g"] = pd.Series([f"id{i}" for i in range(len(xs))], dtype=object)
     if classes is not None:
         ys = [classes[v] for v in ys]
     y = pd.Series(ys)
@@ -170,6 +172,8 @@ def carver_kwargs(case, vals):
     if case["carver"] != "continuous":
         kw["sort_by"] = cfg.get("sort_by", "tschuprowt")
     kw.update(feature_kwargs(case["kind"], vals))
+    if case.get("companion") == "id":
+        kw["qualitative_features"] = list(kw.get("qualitative_features", [])) + ["g"]
     kw.update(case.get("kw") or {})  # user-chosen sentinels (str_nan / str_default)
     return kw
 
@@ -212,13 +216,13 @@ def build_frames(case):
     target = target_of(case)
     cells = [tuple(c) for c in case["cells"]]
     nan = tuple(case["nan"]) if case.get("nan") is not None else None
-    X, y, vals = materialize(case["kind"], cells, nan, case.get("seed", 0), target, classes=case.get("classes"), scale=case.get("scale"), values=case.get("values"), xdtype=case.get("xdtype"))
+    X, y, vals = materialize(case["kind"], cells, nan, case.get("seed", 0), target, classes=case.get("classes"), scale=case.get("scale"), values=case.get("values"), xdtype=case.get("xdtype"), companion=case.get("companion"))
     Xd = yd = None
     dev = case.get("dev")
     if dev is not None:
         dcells = [tuple(c) for c in dev["cells"]]
         dnan = tuple(dev["nan"]) if dev.get("nan") is not None else None
-        Xd, yd, _ = materialize(case["kind"], dcells, dnan, case.get("seed", 0), target, classes=case.get("classes"), scale=case.get("scale"), values=case.get("values"), xdtype=case.get("xdtype"))
+        Xd, yd, _ = materialize(case["kind"], dcells, dnan, case.get("seed", 0), target, classes=case.get("classes"), scale=case.get("scale"), values=case.get("values"), xdtype=case.get("xdtype"), companion=case.get("companion"))
     return X, y, Xd, yd, vals
 
 
